@@ -5,6 +5,7 @@ import (
 	"encoding/json"
 	"fmt"
 	"math/rand"
+	"os"
 
 	"github.com/idena-network/idena-go/blockchain/types"
 	"github.com/idena-network/idena-go/blockchain/validation"
@@ -412,6 +413,9 @@ func (r *runner) enumerate(nScn, nDouble, shardK, shardN int) {
 		switch x % 5 { // every family in every run; long and short chains alternate per round
 		case 4:
 			d.Op = "FastSync"
+			if os.Getenv("VERIF_TIER") != "thorough" {
+				d.Long = false // deleting the replaced databases of a long chain key by key is slow: thorough tier only
+			}
 			for i, m := 0, 2+rnd.Intn(3); i < m; i++ {
 				d.Kinds = append(d.Kinds, kinds[rnd.Intn(4)])
 			}
